@@ -3,7 +3,9 @@ package props
 import (
 	"encoding/binary"
 	"fmt"
+	"os"
 
+	"github.com/vicanso/pike/cache"
 	"github.com/vicanso/pike/config"
 	"github.com/vicanso/pike/server"
 
@@ -370,6 +372,60 @@ func init() {
 		if c.Thorough() {
 			d = 3
 			pre = 3
+		}
+		// a store that cannot even be opened (badger directory unusable, unknown scheme): configured through pike's
+		// own configuration path, every request of a short history must still be answered
+		if c.Want("unopenable-store") && c.Shard == 0 {
+			st := c.Stat("unopenable-store", "enumeration")
+			urls := []string{c11BadStore, "badger:///proc/version/x", "nosuchscheme://x", "redis://127.0.0.1:1/?timeout=100ms", "mongodb://127.0.0.1:1/pike?timeoutMS=200"}
+			st.Bounds = fmt.Sprintf("%d store URLs that validate but cannot be opened x history {fetch k1, hit k1, fetch k2, purge k1, fetch k1, tick past the lifetime, refetch k1}", len(urls))
+			for ui, u := range urls {
+				cfg := env.BasicConfig(config.CacheConfig{Store: u})
+				e := getEnv(cfg, fmt.Sprintf("c10-badstore-%d", ui))
+				vsched.GuardReset()
+				freshCaches(cfg)
+				vtime.Set(vtime.Base)
+				e.Respond = func(oc *env.OriginCall) env.OriginResp { return env.Cacheable(oc, 2, "p") }
+				e.Events()
+				want := []string{"fetching", "hit", "fetching", "", "fetching", "", "fetching"}
+				for i, step := range []string{"/k1", "/k1", "/k2", "purge", "/k1", "tick", "/k1"} {
+					switch step {
+					case "purge":
+						cache.RemoveHTTPCache("", []byte("GET a.com /k1"))
+						continue
+					case "tick":
+						vtime.Add(3)
+						continue
+					}
+					var r *env.Result
+					w := vsched.Guarded(vtime.Get(), func() { r = e.Do(env.Req{URI: step, Rid: fmt.Sprintf("r%d", i)}) })
+					st.Execs++
+					kase := map[string]interface{}{"store": u, "step": i}
+					switch {
+					case w != "" || r == nil:
+						c.Violation("unopenable-store", "request-blocks-forever", fmt.Sprintf("store %q, step %d (%s): %s", u, i, step, w), nil, kase, nil)
+					case r.Panic != "":
+						c.Violation("unopenable-store", "panic-with-unopenable-store", fmt.Sprintf("store %q, step %d (%s): %s", u, i, step, trunc([]byte(r.Panic))), nil, kase, nil)
+					case r.Status != 200:
+						c.Violation("unopenable-store", fmt.Sprintf("status-%d-with-unopenable-store", r.Status), fmt.Sprintf("store %q, step %d (%s): %s", u, i, step, trunc(r.Body)), nil, kase, nil)
+					case r.XStatus != want[i]:
+						c.Violation("unopenable-store", "memory-caching-lost-with-unopenable-store", fmt.Sprintf("store %q, step %d (%s): labelled %s, a memory-only cache answers %s", u, i, step, r.XStatus, want[i]), nil, kase, nil)
+					}
+					if w != "" {
+						break
+					}
+				}
+				an := analyze(e.Events())
+				if v := an.selfCheck(); v != nil {
+					c.Violation("unopenable-store", v.Sig, v.Msg, nil, map[string]interface{}{"store": u}, nil)
+				}
+			}
+			st.States, st.Transitions, st.Nontrivial = st.Execs, st.Execs, st.Execs
+			st.NOutcomes = int(st.Execs)
+			if vsched.Leaked {
+				c.Emit()
+				os.Exit(0)
+			}
 		}
 		c.RunSched(c10History(c, "history-faults", false, false, vsched.Bounds{Preempt: 0, Tick: 0, Data: d, Total: -1}))
 		c.RunSched(c10History(c, "history-faults-lazy-store", true, false, vsched.Bounds{Preempt: 0, Tick: 0, Data: d, Total: -1}))
